@@ -21,6 +21,7 @@ import threading
 from collections import Counter
 
 ENV = None
+SIM_ROOT = "/simfs/"
 INSTALLED = {}
 GATE = "none"
 
@@ -109,6 +110,18 @@ class SimFS:
         self.stats = Counter()
         self.exists_true = []  # arguments for which exists() answered True (path-collision evidence)
         self.no_collision = False  # fault removed: the path-or-string test never finds a source text on disk
+
+    def owns(self, p):
+        """Is this path part of the simulated world (else the real file system answers)?"""
+        return isinstance(p, str) and (p.startswith(SIM_ROOT) or p in self.files or p in self.dirs or p in self.faults)
+
+    def stat(self, p):
+        import stat as _stat
+        if p in self.dirs:
+            return _real_os.stat_result((_stat.S_IFDIR | 0o755, 1, 1, 1, 0, 0, 4096, 0, 0, 0))
+        if p in self.files and self.faults.get(p) != "ENOENT":
+            return _real_os.stat_result((_stat.S_IFREG | 0o644, 1, 1, 1, 0, 0, len(self.files[p]), 0, 0, 0))
+        raise FileNotFoundError(errno.ENOENT, "No such file or directory", p)
 
     def exists(self, p):
         if not isinstance(p, (str, bytes)):
@@ -316,6 +329,42 @@ def install():
     ts.os = _OsShim()
     ts.open = _sim_open
     se.open = _sim_open
+
+    # Process-wide fall-through wrappers, so that a refactoring to pathlib / io.open / os.stat still
+    # meets the simulated file system: only paths the SimFS owns are intercepted, only during a run.
+    import builtins
+    real_open, real_stat = builtins.open, _real_os.stat
+
+    def _fspath(f):
+        if isinstance(f, int):
+            return None
+        try:
+            p = _real_os.fspath(f)
+        except TypeError:
+            return None
+        return p.decode("utf-8", "surrogateescape") if isinstance(p, bytes) else p
+
+    def global_open(file, *a, **k):
+        env = ENV
+        if env is not None:
+            p = _fspath(file)
+            if p is not None and env.fs.owns(p):
+                return env.fs.open(p, *a, **k)
+        return real_open(file, *a, **k)
+
+    def global_stat(path, *a, **k):
+        env = ENV
+        if env is not None:
+            p = _fspath(path)
+            if p is not None and env.fs.owns(p):
+                if env.fs.no_collision and not p.startswith(SIM_ROOT):
+                    raise FileNotFoundError(errno.ENOENT, "No such file or directory", p)
+                return env.fs.stat(p)
+        return real_stat(path, *a, **k)
+
+    builtins.open = global_open
+    io.open = global_open
+    _real_os.stat = global_stat
 
     info["gate"] = GATE
     INSTALLED.update(info)
